@@ -175,7 +175,7 @@ def catalogue(pt):
         add("InnerTxn.%s[dyn]" % m, lambda m=m: getattr(pt.InnerTxn, m)[T.fee()], "field")
         add("Gitxn[0].%s[2]" % m, lambda m=m: getattr(pt.Gitxn[0], m)[2], "field")
         add("Gitxn[0].%s[dyn]" % m, lambda m=m: getattr(pt.Gitxn[0], m)[T.fee()], "field")
-        # the known defect: a constant index has no upper bound
+        # beyond one byte: refused at construction since /repo 6fb1ed6 (was finding txn-array-index-over-255)
         for idx in (256, 300, 70000):
             add("Txn.%s[%d]" % (m, idx), lambda m=m, idx=idx: getattr(T, m)[idx], "index-gt-255")
         add("Gtxn[2].%s[256]" % m, lambda m=m: getattr(pt.Gtxn[2], m)[256], "index-gt-255")
